@@ -6,9 +6,9 @@ that are visible, values to search for, and to know when a range is sorted for s
 import random
 
 
-def K(group, ra, ext, mut, std, shape, steps=(1,), maxn=None, stp=False, dc=True, srcs=(0,), idx=None, array=False):
+def K(group, ra, ext, mut, std, shape, steps=(1,), maxn=None, stp=False, dc=True, srcs=(0,), idx=None, array=False, adv=False, twin=False):
     return {"group": group, "ra": ra, "ext": ext, "mut": mut, "std": std, "shape": shape, "steps": steps,
-            "maxn": maxn, "stp": stp, "dc": dc, "srcs": srcs, "idx": idx, "array": array}
+            "maxn": maxn, "stp": stp, "dc": dc, "srcs": srcs, "idx": idx, "array": array, "adv": adv, "twin": twin}
 
 
 # kind -> driver group, capability class (what the spec enables), element shape.
@@ -17,22 +17,25 @@ def K(group, ra, ext, mut, std, shape, steps=(1,), maxn=None, stp=False, dc=True
 #   srcs ways of obtaining the iterators: 0 = begin()/cbegin()/rbegin()/crbegin() of the container,
 #        1 = begin()/end()/rbegin()/rend() of a CONST reference to the container (const kinds only)
 #   idx  number of the kind in harness/iter/facts.cpp
+#   adv  the kind lies outside the property statement (negative stride): own traces, rejections are advisory
+#   twin the container names a const twin of this iterator type (mixed iterator / const_iterator expressions, advisory);
+#        const kinds are their own twin: there the stage compares the cbegin()/cend()-based observers with the begin()-based ones
 KINDS = {
-    "bit8_it":    K(0, True, False, True, True, "bit", idx=0),
-    "bit8_cit":   K(0, True, False, False, True, "bit", srcs=(0, 1), idx=1),
+    "bit8_it":    K(0, True, False, True, True, "bit", idx=0, twin=True),
+    "bit8_cit":   K(0, True, False, False, True, "bit", srcs=(0, 1), idx=1, twin=True),
     "bit8_rit":   K(11, True, False, True, True, "bit", idx=2),          # std::reverse_iterator<xbitset_iterator>
     "bit8_crit":  K(11, True, False, False, True, "bit", srcs=(0, 1), idx=3),
-    "bit64_it":   K(0, True, False, True, True, "bit", idx=4),
+    "bit64_it":   K(0, True, False, True, True, "bit", idx=4, twin=True),
     "bit64_cit":  K(0, True, False, False, True, "bit", srcs=(0, 1), idx=5),
-    "bitv8_it":   K(0, True, False, True, True, "bit", idx=6),
+    "bitv8_it":   K(0, True, False, True, True, "bit", idx=6, twin=True),
     "bitv8_cit":  K(0, True, False, False, True, "bit", srcs=(0, 1), idx=7),
-    "optvec_it":   K(1, True, False, True, True, "opt", idx=8),
-    "optvec_cit":  K(1, True, False, False, True, "opt", srcs=(0, 1), idx=9),
-    "optvec_rit":  K(1, True, False, True, True, "opt", idx=10),
+    "optvec_it":   K(1, True, False, True, True, "opt", idx=8, twin=True),
+    "optvec_cit":  K(1, True, False, False, True, "opt", srcs=(0, 1), idx=9, twin=True),
+    "optvec_rit":  K(1, True, False, True, True, "opt", idx=10, twin=True),
     "optvec_crit": K(1, True, False, False, True, "opt", srcs=(0, 1), idx=11),
-    "cplxvec_it":   K(2, True, False, True, True, "cplx", idx=12),
-    "cplxvec_cit":  K(2, True, False, False, True, "cplx", srcs=(0, 1), idx=13),
-    "cplxvec_rit":  K(2, True, False, True, True, "cplx", idx=14),
+    "cplxvec_it":   K(2, True, False, True, True, "cplx", idx=12, twin=True),
+    "cplxvec_cit":  K(2, True, False, False, True, "cplx", srcs=(0, 1), idx=13, twin=True),
+    "cplxvec_rit":  K(2, True, False, True, True, "cplx", idx=14, twin=True),
     "cplxvec_crit": K(2, True, False, False, True, "cplx", srcs=(0, 1), idx=15),
     "step_vec":  K(3, True, False, True, True, "int", steps=(1, 2, 3), stp=True, idx=16),
     "step_cvec": K(3, True, False, False, True, "int", steps=(1, 2, 3), stp=True, idx=17),
@@ -40,6 +43,11 @@ KINDS = {
     "key_map":    K(3, False, False, False, True, "key", dc=False, idx=19),
     "value_map":  K(3, False, False, True, False, "int", dc=False, idx=20),     # std: observed (facts traits_bi)
     "cvalue_map": K(3, False, False, False, False, "int", dc=False, idx=21),
+    # round 3: the key / value iterators over a std::multimap (keys repeat)
+    "key_mmap":   K(3, False, False, False, True, "dupkey", dc=False, idx=40),
+    "value_mmap": K(3, False, False, True, False, "int", dc=False, idx=41),
+    # round 3, advisory: xstepping_iterator<int*> with a NEGATIVE stride (the statement says "positive step")
+    "step_neg":   K(3, True, False, True, True, "int", steps=(1, 2, 3), stp=True, adv=True),
     "toy_bi1": K(4, False, False, True, True, "int", idx=22),
     "toy_bi2": K(4, False, False, True, True, "int", idx=23),
     "toy_bi3": K(4, False, False, True, True, "int", idx=24),
@@ -61,7 +69,7 @@ KINDS = {
     "step_srit":    K(11, True, False, True, True, "int", steps=(1, 2, 3), idx=38),
     "toyra_srit":   K(11, True, False, True, True, "int", idx=39),
 }
-VALUE_KINDS = ("value_map", "cvalue_map")          # `std` is a capability of the tree for these
+VALUE_KINDS = ("value_map", "cvalue_map", "value_mmap")          # `std` is a capability of the tree for these
 ARRAY_GROUPS = (5, 6, 7, 8, 9, 10)
 # quick tier: const / reverse / view twins of an iterator template already replayed in full get the
 # TLC transitions for n <= 3 only (thorough: everything, n <= 6)
@@ -78,19 +86,26 @@ OP_NEEDS = {"PlusU": {"ra", "ext"}, "PlusLeftU": {"ra", "ext"}, "MinusU": {"ra",
             "StdCopy": {"std"}, "StdCopyBackward": {"std"}, "StdReverseCopy": {"std"}, "StdFind": {"std"}, "StdCount": {"std"},
             "StdEqual": {"std"}, "StdLowerBound": {"std"},
             "StdFill": {"std", "mut"}, "StdReverse": {"std", "mut"}, "StdSort": {"std", "mut", "ra"},
-            "Write": {"mut"}, "IndexWrite": {"mut", "ra"}, "ValueInit": {"dc"}, "EqualM": {"stp"}, "LessThanM": {"stp"}}
+            "Write": {"mut"}, "IndexWrite": {"mut", "ra"}, "ValueInit": {"dc"}, "EqualM": {"stp"}, "LessThanM": {"stp"},
+            "DcAssign": {"dc"}, "StdRotate": {"std", "mut"}, "StdMinElement": {"std"}, "StdCopyWithin": {"std", "mut"}}
 for _o in RA_OPS:
     OP_NEEDS[_o] = {"ra"}
 HOW_NEEDS = {"lt": {"ra"}, "index": {"ra"}, "plus": {"ra"}, "gt": {"ra"}, "minus": {"ra"}, "stdrev": {"std"}, "stdrevidx": {"std", "ra"}}
 # bodies that SFINAE cannot see: the driver is built with a capability mask per kind (iter_algos.hpp CAP_*)
-CAP_BITS = {"Arrow": 1, "StdFill": 2, "StdReverse": 4, "StdSort": 8}
-CAP_ALL = 15
+CAP_BITS = {"Arrow": 1, "StdFill": 2, "StdReverse": 4, "StdSort": 8, "StdRotate": 16, "StdCopyWithin": 32}
+CAP_ALL = 63
 
 ALL_ACTIONS = ["PreInc", "PostInc", "PreDec", "PostDec", "Deref", "Arrow", "Eq", "Ne", "Assign", "AddAssign", "SubAssign",
                "Plus", "PlusLeft", "Minus", "Index", "Diff", "Lt", "Le", "Gt", "Ge", "PlusU", "PlusLeftU", "MinusU", "IndexU",
                "StdAdvance", "StdDistance", "StdNext", "StdPrev", "Write", "IndexWrite", "TraverseForward", "TraverseReverse", "Seat",
                "StdCopy", "StdCopyBackward", "StdReverseCopy", "StdFind", "StdCount", "StdEqual", "StdLowerBound",
-               "StdFill", "StdReverse", "StdSort", "ValueInit", "EqualM", "LessThanM"]
+               "StdFill", "StdReverse", "StdSort", "ValueInit", "EqualM", "LessThanM",
+               "PostIncDeref", "PostDecDeref", "DcAssign", "MultiPass", "StdRotate", "StdMinElement", "StdCopyWithin"]
+ADVISORY_ACTIONS = ["ToConst", "MixedCmp"]          # bound by advisory_scripts only
+MIXED_OPS = ["eq", "ne", "lt", "le", "gt", "ge", "diff"]
+# the negative-stride kind: order comparisons of xstepping_iterator compare the underlying iterators (probed separately)
+ORDER_OPS = {"Lt", "Le", "Gt", "Ge", "LessThanM", "StdSort", "StdReverse"}      # libstdc++: std::reverse of random-access iterators loops on first < last
+ORDER_HOWS = {"lt", "gt"}
 
 BITPAT = 0xB38F0F5C3A6D91E7C5A3F00FF0E1D2B4   # fixed pseudo-random bit pattern
 
@@ -122,6 +137,8 @@ def elem(shape, j):
         return [10 + j, 500 + 3 * j]
     if shape == "key":
         return [10 + 2 * j]            # keys of the map: must be increasing
+    if shape == "dupkey":
+        return [10 + 2 * (j // 2)]     # keys of the multimap: non-decreasing, each twice
     return [10 + j]
 
 
@@ -155,11 +172,11 @@ def ev(op, w, **a):
     return {"op": op, "k": w, "a": a or {"z": 0}}
 
 
-MOVERS = {"PreInc", "PostInc", "PreDec", "PostDec", "AddAssign", "SubAssign", "Assign", "StdAdvance"}
-WRITERS = {"Write", "IndexWrite", "StdFill", "StdReverse", "StdSort"}
+MOVERS = {"PreInc", "PostInc", "PreDec", "PostDec", "AddAssign", "SubAssign", "Assign", "StdAdvance", "PostIncDeref", "PostDecDeref"}
+WRITERS = {"Write", "IndexWrite", "StdFill", "StdReverse", "StdSort", "StdRotate", "StdCopyWithin"}
 POSITION_FREE = {"ValueInit", "TraverseForward", "TraverseReverse"}
 RANGE_OPS = {"StdCopy", "StdCopyBackward", "StdReverseCopy", "StdFind", "StdCount", "StdEqual", "StdLowerBound",
-             "StdFill", "StdReverse", "StdSort"}
+             "StdFill", "StdReverse", "StdSort", "StdRotate", "StdMinElement", "StdCopyWithin"}
 
 
 def range_slice(under, step, lo, hi):
@@ -170,7 +187,13 @@ def is_sorted(s):
     return all(s[i] <= s[i + 1] for i in range(len(s) - 1))
 
 
-def apply_range_writer(under, step, op, lo, hi, v=None):
+def copy_within(under, step, lo, hi, j):
+    src = range_slice(under, step, lo, hi)
+    for i, x in enumerate(src):
+        under[(j + i) * step] = x
+
+
+def apply_range_writer(under, step, op, lo, hi, v=None, m=0):
     """What a conforming std::fill / std::reverse / std::sort leaves in the storage (generator bookkeeping)."""
     s = range_slice(under, step, lo, hi)
     if op == "StdFill":
@@ -179,6 +202,8 @@ def apply_range_writer(under, step, op, lo, hi, v=None):
         s = s[::-1]
     elif op == "StdSort":
         s = sorted(s)
+    elif op == "StdRotate":
+        s = s[m:] + s[:m]
     for i, x in zip(range(lo, hi), s):
         under[i * step] = x
 
@@ -196,7 +221,7 @@ def s2c_scripts(edges, rnd, skip, quick=False, stats=None):
     unsorted = 0
     for kind in sorted(KINDS):
         k = KINDS[kind]
-        if (kind, "*") in skip:
+        if (kind, "*") in skip or k["adv"]:
             continue
         have = flags_of(k)
         vias = ["inc", "dec"] + (["add", "sub"] if k["ra"] else [])
@@ -253,6 +278,10 @@ def s2c_scripts(edges, rnd, skip, quick=False, stats=None):
                             under[pos * step] = c["a"]["v"]
                     elif op in ("StdReverse", "StdSort"):
                         apply_range_writer(under, step, op, lo, hi)
+                    elif op == "StdRotate":
+                        apply_range_writer(under, step, op, lo, hi, m=c["a"]["m"])
+                    elif op == "StdCopyWithin":
+                        copy_within(under, step, lo, hi, c["a"]["j"])
                     lines.append(c)
                     taken += 1
                     seat = op in MOVERS
@@ -276,23 +305,26 @@ class Walk:
         self.lines = [reset_event(kind, n, step, src)]
         self.under = list(self.lines[0]["a"]["under"])
         k = self.k
-        ops = ["PreInc", "PostInc", "PreDec", "PostDec", "Deref", "Arrow", "Eq", "Ne", "Assign", "Trav", "Seat"]
+        ops = ["PreInc", "PostInc", "PreDec", "PostDec", "Deref", "Arrow", "Eq", "Ne", "Assign", "Trav", "Seat",
+               "PostIncDeref", "PostDecDeref", "MultiPass"]
         if k["ra"]:
             ops += ["AddAssign", "SubAssign", "Plus", "PlusLeft", "Minus", "Index", "Diff", "Lt", "Le", "Gt", "Ge"] * 2
         if k["ext"]:
             ops += ["PlusU", "PlusLeftU", "MinusU", "IndexU"] * 2
         if k["std"]:
             ops += ["StdAdvance", "StdDistance", "StdNext", "StdPrev"]
-            ops += ["StdCopy", "StdCopyBackward", "StdReverseCopy", "StdFind", "StdFind", "StdCount", "StdEqual", "StdLowerBound", "StdLowerBound"]
+            ops += ["StdCopy", "StdCopyBackward", "StdReverseCopy", "StdFind", "StdFind", "StdCount", "StdEqual", "StdLowerBound", "StdLowerBound",
+                    "StdMinElement"]
             if k["mut"]:
-                ops += ["StdFill", "StdReverse", "StdReverse"] + (["StdSort", "StdSort"] if k["ra"] else [])
+                ops += ["StdFill", "StdReverse", "StdReverse", "StdRotate", "StdRotate", "StdCopyWithin", "StdCopyWithin"] + (["StdSort", "StdSort"] if k["ra"] else [])
         if k["mut"]:
             ops += ["Write"] + (["IndexWrite"] if k["ra"] else [])
         if k["dc"]:
-            ops += ["ValueInit"]
+            ops += ["ValueInit", "DcAssign"]
         if k["stp"]:
             ops += ["EqualM", "LessThanM"]
         self.ops = [o for o in ops if (kind, o) not in skip]
+        self.nohows = set(h for (kk, h) in skip if kk == kind + "/how")
 
     def off(self, lo, hi):
         """an offset in [lo, hi], biased to the ends and small magnitudes"""
@@ -326,6 +358,18 @@ class Walk:
             if op in ("Deref", "Arrow"):
                 if p >= n: continue
                 return ev(op, w + 1)
+            if op == "PostIncDeref":
+                if p >= n: continue
+                self.pos[w] += 1
+                return ev(op, w + 1)
+            if op == "PostDecDeref":
+                if p >= n or p <= 0: continue
+                self.pos[w] -= 1
+                return ev(op, w + 1)
+            if op == "DcAssign":
+                return ev(op, w + 1)
+            if op == "MultiPass":
+                return ev(op, w + 1, m=self.off(0, n - p))
             if op in ("Eq", "Ne", "Diff", "Lt", "Le", "Gt", "Ge", "EqualM", "LessThanM"):
                 return ev(op, w + 1)
             if op == "ValueInit":
@@ -335,11 +379,12 @@ class Walk:
                 return ev(op, w + 1)
             if op == "Trav":
                 if r.random() < 0.5:
-                    return ev("TraverseForward", 1, how=r.choice(["pre", "post"] + (["lt", "index", "plus"] if k["ra"] else [])))
+                    hows = ["pre", "post"] + (["lt", "index", "plus"] if k["ra"] else [])
+                    return ev("TraverseForward", 1, how=r.choice([h for h in hows if h not in self.nohows]))
                 hows = ["pre", "post"] + (["gt", "minus"] if k["ra"] else [])
                 if k["std"]:
                     hows += ["stdrev"] + (["stdrevidx"] if k["ra"] else [])
-                return ev("TraverseReverse", 1, how=r.choice(hows))
+                return ev("TraverseReverse", 1, how=r.choice([h for h in hows if h not in self.nohows]))
             if op == "Seat":
                 if r.random() < 0.7: continue
                 a, b = r.randint(0, n), r.choice([0, n, r.randint(0, n)])
@@ -380,8 +425,20 @@ class Walk:
                 return ev(op, w + 1, v=v)
             if op in RANGE_OPS:
                 if p > o: continue                   # [it_w, it_other) must be a valid range
-                if op in ("StdCopy", "StdCopyBackward", "StdReverseCopy"):
+                if op in ("StdCopy", "StdCopyBackward", "StdReverseCopy", "StdMinElement"):
                     return ev(op, w + 1)
+                if op == "StdCopyWithin":
+                    ln = o - p
+                    cand = [j for j in range(0, n - ln + 1) if j <= p or j >= o]
+                    if not cand: continue
+                    far = [x for x in (p - 8, p + 8, p - 16, p - 64, p + 64) if x in cand and ln > 0]          # destinations a block width away
+                    j = r.choice(far) if far and r.random() < 0.7 else r.choice(cand)
+                    copy_within(self.under, self.step, p, o, j)
+                    return ev(op, w + 1, j=j)
+                if op == "StdRotate":
+                    m = self.off(0, o - p)
+                    apply_range_writer(self.under, self.step, op, p, o, m=m)
+                    return ev(op, w + 1, m=m)
                 if op in ("StdFind", "StdCount"):
                     return ev(op, w + 1, v=self.a_value(p, o))
                 if op == "StdEqual":
@@ -416,7 +473,7 @@ def walk_sizes(kind):
 
 def random_scripts(seed, quick, skip, kinds=None, salt="", nexec=None, nops=None):
     scripts = {}
-    for kind in sorted(kinds if kinds is not None else KINDS):
+    for kind in sorted(kinds if kinds is not None else [x for x in KINDS if not KINDS[x]["adv"]]):
         k = KINDS[kind]
         if (kind, "*") in skip:
             continue
@@ -432,3 +489,43 @@ def random_scripts(seed, quick, skip, kinds=None, salt="", nexec=None, nops=None
             lines.extend(Walk(rnd, kind, n, step, skip, src).run(no))
         scripts[kind] = lines
     return scripts
+
+
+# ------------------------------------------------------------- advisory scripts (round 3)
+def mixed_scripts(kind, caps, maxn):
+    """Mixed iterator / const_iterator expressions of a kind with a const twin: one tiny execution per
+    (n, p, q, expression), so that a deviation of one expression does not hide the others.  `caps` says which
+    expressions compile on this tree (the driver's MixedCaps answer)."""
+    k = KINDS[kind]
+    lines = []
+    vias = ["inc", "dec", "add", "sub"] if k["ra"] else ["inc", "dec"]
+    vi = 0
+    for n in range(0, maxn + 1):
+        for p in range(n + 1):
+            lines.append(reset_event(kind, n, 1))
+            lines.append(ev("Seat", 1, p=p, q=p, via=vias[vi % len(vias)])); vi += 1
+            lines.append(ev("ToConst", 1))
+            lines.append(ev("ToConst", 2))
+            for q in range(n + 1):
+                for o in MIXED_OPS:
+                    if not caps.get(o) or (o not in ("eq", "ne") and not k["ra"]):
+                        continue
+                    lines.append(reset_event(kind, n, 1))
+                    lines.append(ev("Seat", 1, p=p, q=q, via=vias[vi % len(vias)])); vi += 1
+                    lines.append(ev("MixedCmp", 1, o=o))
+                    lines.append(ev("MixedCmp", 2, o=o))
+    return lines
+
+
+def negstride_scripts(seed, quick):
+    """Random walks of the negative-stride kind without the order comparisons, plus one directed execution per order
+    comparison (these are where the header's less_than compares the underlying iterators)."""
+    skip = set(("step_neg", o) for o in ORDER_OPS) | set(("step_neg/how", h) for h in ORDER_HOWS)
+    rs = random_scripts(seed, quick, skip, kinds=["step_neg"], salt="/neg", nexec=12 if quick else 40, nops=50 if quick else 100)
+    probes = []
+    for op in ("Lt", "Le", "Gt", "Ge", "LessThanM"):
+        probes.append([reset_event("step_neg", 3, 2), ev("Seat", 1, p=0, q=2, via="inc"), ev(op, 1), ev(op, 2)])
+    probes.append([reset_event("step_neg", 3, 1), ev("TraverseForward", 1, how="lt")])
+    probes.append([reset_event("step_neg", 3, 1), ev("TraverseReverse", 1, how="gt")])
+    probes.append([reset_event("step_neg", 4, 1), ev("Seat", 1, p=0, q=4, via="add"), ev("StdReverse", 1), ev("StdSort", 1)])
+    return rs["step_neg"], probes
